@@ -61,6 +61,9 @@ SEED = 11
 
 # ----------------------------------------------------------------------------- generation
 def gen_shape(rng, cs=(1, 3, 4, 2)):
+    if rng.random() < 0.12:
+        c = rng.choice([2, 3, 4])          # cube-shaped inputs: the NCHW and NHWC shapes coincide
+        return [c, c, c]
     while True:
         h, w = rng.randint(1, 4), rng.randint(1, 4)
         if h != w or rng.random() < 0.15:
